@@ -273,6 +273,31 @@ fn run_to_end<F: std::future::Future>(fut: F) -> std::result::Result<Option<F::O
     })
 }
 
+/// as run_to_end, but the future runs as a SPAWNED task of the (current-thread, paused) runtime - the way connection code runs
+/// in a program - and not as the root future of block_on, which tokio treats differently in places (block_in_place, budgets)
+fn run_to_end_spawned<F>(fut: F) -> std::result::Result<Option<F::Output>, String>
+where
+    F: std::future::Future + Send + 'static,
+    F::Output: Send + 'static,
+{
+    let rt = runtime();
+    rt.block_on(async move {
+        let jh = tokio::spawn(fut);
+        match tokio::time::timeout(std::time::Duration::from_secs(86400 * 365), jh).await {
+            Ok(Ok(v)) => Ok(Some(v)),
+            Ok(Err(e)) => {
+                if e.is_panic() {
+                    let p = e.into_panic();
+                    Err(p.downcast_ref::<String>().cloned().or_else(|| p.downcast_ref::<&str>().map(|s| s.to_string())).unwrap_or_else(|| "panic".into()))
+                } else {
+                    Err("task cancelled".into())
+                }
+            }
+            Err(_) => Ok(None),
+        }
+    })
+}
+
 fn is_eof(e: &diameter::error::Error) -> bool {
     matches!(e, diameter::error::Error::IoError(io) if io.kind() == std::io::ErrorKind::UnexpectedEof)
 }
@@ -287,7 +312,8 @@ pub fn decode_n(st: &State, t: &mut Toks) -> PResult<String> {
     let sh2 = Arc::clone(&sh);
     let out = Arc::new(Mutex::new(String::from("SD")));
     let out2 = Arc::clone(&out);
-    let res = run_to_end(async move {
+    let spawned = (k + stream.r.len()) % 2 == 1;
+    let fut = async move {
         for _ in 0..k {
             let r = Codec::decode(&mut stream, Arc::clone(&dict)).await;
             let mut o = out2.lock().unwrap();
@@ -302,7 +328,8 @@ pub fn decode_n(st: &State, t: &mut Toks) -> PResult<String> {
             }
             let _ = write!(o, " @{}]", sh2.lock().unwrap().consumed);
         }
-    });
+    };
+    let res = if spawned { run_to_end_spawned(fut) } else { run_to_end(fut) };
     let mut o = out.lock().unwrap().clone();
     match res {
         Ok(Some(())) => {}
@@ -323,7 +350,9 @@ pub fn encode_1(st: &State, t: &mut Toks) -> PResult<String> {
     let ws = parse_wscript(t)?;
     let sh = Arc::new(Mutex::new(Shared::default()));
     let mut stream = ScriptStream::new(VecDeque::new(), ws, Arc::clone(&sh));
-    let res = run_to_end(async move { Codec::encode(&mut stream, &m).await.is_ok() });
+    let spawned = (stream.w.len() + m.get_avps().len()) % 2 == 1;
+    let fut = async move { Codec::encode(&mut stream, &m).await.is_ok() };
+    let res = if spawned { run_to_end_spawned(fut) } else { run_to_end(fut) };
     let mut o = String::from("SE ");
     match res {
         Ok(Some(true)) => o.push_str("ok "),
@@ -340,6 +369,78 @@ pub fn encode_1(st: &State, t: &mut Toks) -> PResult<String> {
 pub enum Ans {
     Msg(DiameterMessage),
     Fail,
+}
+
+/// read side: the same request frame n times, generated on the fly; write side: counts what it is given
+struct GenStream {
+    frame: Vec<u8>,
+    left: usize,
+    off: usize,
+    written: Arc<Mutex<(usize, usize)>>, // (octets, non-answer octets)
+}
+impl AsyncRead for GenStream {
+    fn poll_read(mut self: Pin<&mut Self>, _cx: &mut Context<'_>, buf: &mut ReadBuf<'_>) -> Poll<std::io::Result<()>> {
+        let me = &mut *self;
+        if me.left == 0 {
+            return Poll::Ready(Ok(()));
+        }
+        let n = buf.remaining().min(me.frame.len() - me.off);
+        buf.put_slice(&me.frame[me.off..me.off + n]);
+        me.off += n;
+        if me.off == me.frame.len() {
+            me.off = 0;
+            me.left -= 1;
+        }
+        Poll::Ready(Ok(()))
+    }
+}
+impl AsyncWrite for GenStream {
+    fn poll_write(self: Pin<&mut Self>, _cx: &mut Context<'_>, buf: &[u8]) -> Poll<std::io::Result<usize>> {
+        self.written.lock().unwrap().0 += buf.len();
+        Poll::Ready(Ok(buf.len()))
+    }
+    fn poll_flush(self: Pin<&mut Self>, _cx: &mut Context<'_>) -> Poll<std::io::Result<()>> {
+        Poll::Ready(Ok(()))
+    }
+    fn poll_shutdown(self: Pin<&mut Self>, _cx: &mut Context<'_>) -> Poll<std::io::Result<()>> {
+        Poll::Ready(Ok(()))
+    }
+}
+
+/// SVBIG <n> <size>: one served connection carrying n requests of `size` octets each (more than 4 GiB in all when asked):
+/// every request is handled and answered, whatever the total
+pub fn serve_big(st: &State, t: &mut Toks) -> PResult<String> {
+    let dict = st.dicts.get("b").ok_or_else(|| "dict b missing".to_string())?.clone();
+    let n = t.usize_dec()?;
+    let size = t.u64()? as usize;
+    let mut req = DiameterMessage::new(diameter::CommandCode::CreditControl, diameter::ApplicationId::CreditControl, 0x80, 1, 2, Arc::clone(&dict));
+    req.add_avp(25, None, 0, diameter::avp::OctetString::new(vec![0x33; size.saturating_sub(28)]).into());
+    let mut frame = Vec::new();
+    req.encode_to(&mut frame).map_err(|e| format!("{:?}", e))?;
+    let flen = frame.len();
+    let written = Arc::new(Mutex::new((0usize, 0usize)));
+    let stream = GenStream { frame, left: n, off: 0, written: Arc::clone(&written) };
+    let calls = Arc::new(std::sync::atomic::AtomicUsize::new(0));
+    let calls2 = Arc::clone(&calls);
+    let d2 = Arc::clone(&dict);
+    let handler = move |req: DiameterMessage| {
+        let calls = Arc::clone(&calls2);
+        let d = Arc::clone(&d2);
+        async move {
+            calls.fetch_add(1, std::sync::atomic::Ordering::SeqCst);
+            let mut a = DiameterMessage::new(req.get_command_code(), req.get_application_id(), 0, req.get_hop_by_hop_id(), req.get_end_to_end_id(), d);
+            a.add_avp(268, None, 0x40, diameter::avp::Unsigned32::new(2001).into());
+            Ok(a)
+        }
+    };
+    let res = run_to_end_spawned(async move { DiameterServer::verif_serve_stream(stream, handler, dict).await.is_ok() });
+    let r = match res {
+        Ok(Some(true)) => "closed".to_string(),
+        Ok(Some(false)) => "failed".to_string(),
+        Ok(None) => "HANG".to_string(),
+        Err(p) => format!("panicked:{}", p.replace('\n', " ").replace(' ', "_")),
+    };
+    Ok(format!("SVBIG {} calls={} written={} frame={}", r, calls.load(std::sync::atomic::Ordering::SeqCst), written.lock().unwrap().0, flen))
 }
 
 /// SV <dict> <rscript> <wscript> <nanswers> (A <history> | F)*: the per-connection loop
